@@ -615,6 +615,23 @@ func (ip *Interp) exec(fr *Frame, s ast.Stmt, st *State) flow {
 			return fl
 		}
 		if len(s.Results) == 1 {
+			// `return a < b`, `return !x`: a returned comparison is a decision like any condition — evaluate it as one,
+			// so that the domain sees it (with its outcome) and the caller gets a known boolean per path
+			if be, ok := ast.Unparen(s.Results[0]).(*ast.BinaryExpr); ok {
+				switch be.Op {
+				case token.LSS, token.LEQ, token.GTR, token.GEQ, token.EQL, token.NEQ:
+					if tv, ok := fr.Fn.Info().Types[s.Results[0]]; ok && tv.Value == nil && isBoolType(tv.Type) {
+						tt, ff := ip.evalCond(fr, st, s.Results[0])
+						for _, x := range tt {
+							fl.ret = append(fl.ret, retOut{St: ip.Dom.Visit(ip, fr, x, s), Vals: []Value{boolVal(true)}, Stmt: s})
+						}
+						for _, x := range ff {
+							fl.ret = append(fl.ret, retOut{St: ip.Dom.Visit(ip, fr, x, s), Vals: []Value{boolVal(false)}, Stmt: s})
+						}
+						return fl
+					}
+				}
+			}
 			for _, o := range ip.eval(fr, st, s.Results[0]) {
 				ns := ip.Dom.Visit(ip, fr, o.St, s)
 				vals := o.Vals
@@ -1116,11 +1133,13 @@ func (ip *Interp) execTypeSwitch(fr *Frame, s *ast.TypeSwitchStmt, st *State, la
 	case *ast.AssignStmt:
 		x = a.Rhs[0]
 	}
+	guard := map[*State]Value{}
 	if ta, ok := ast.Unparen(x).(*ast.TypeAssertExpr); ok {
 		var next []*State
 		for _, y := range sts {
 			for _, o := range ip.eval(fr, y, ta.X) {
 				next = append(next, o.St)
+				guard[o.St] = o.val()
 			}
 		}
 		sts = next
@@ -1133,7 +1152,12 @@ func (ip *Interp) execTypeSwitch(fr *Frame, s *ast.TypeSwitchStmt, st *State, la
 			ns, ok := ip.Dom.Cond(ip, fr, y, nil, true) // keep hook symmetric; domains ignore nil cond
 			if ok {
 				if obj := fr.Fn.Info().Implicits[clause]; obj != nil {
-					ns = ip.bind(ns, obj, unknown, fr.Depth)
+					// the clause variable is the guarded value: a domain token stays that token
+					bv := unknown
+					if gv, ok := guard[y]; ok && gv.Kind == VTok {
+						bv = gv
+					}
+					ns = ip.bind(ns, obj, bv, fr.Depth)
 				}
 				in = append(in, ip.Dom.Visit(ip, fr, ns, clause))
 			}
@@ -1500,7 +1524,12 @@ func (ip *Interp) eval(fr *Frame, st *State, e ast.Expr) []Out {
 	case *ast.TypeAssertExpr:
 		var outs []Out
 		for _, o := range ip.eval(fr, st, x.X) {
-			outs = append(outs, Out{St: ip.Dom.Visit(ip, fr, o.St, x), Vals: []Value{unknown, unknown}})
+			// a type assertion does not change which value it is: a domain token stays that token
+			v := unknown
+			if ov := o.val(); ov.Kind == VTok {
+				v = ov
+			}
+			outs = append(outs, Out{St: ip.Dom.Visit(ip, fr, o.St, x), Vals: []Value{v, unknown}})
 		}
 		return outs
 	case *ast.CompositeLit:
@@ -1780,4 +1809,10 @@ func foldInts(op token.Token, a, b Value) (Value, bool) {
 		return boolVal(x >= y), true
 	}
 	return Value{}, false
+}
+
+
+func isBoolType(t types.Type) bool {
+	b, ok := t.Underlying().(*types.Basic)
+	return ok && b.Info()&types.IsBoolean != 0
 }
